@@ -1,7 +1,7 @@
 (* Case runner for C17: decodes harness cases, runs the model of Report.Stacks, judges the
    implementation's StackSet (direct dump, or parsed back from the JSON of the /flamegraph page). *)
 From Coq Require Import QArith Qabs.
-From PV Require Import M_Profile M_Measure S_Measure Gen.Gen_UnitTable M_Stacks S_Stacks M_Handoff S_Handoff.
+From PV Require Import M_Profile M_Measure S_Measure Gen.Gen_UnitTable M_Stacks S_Stacks M_Handoff S_Handoff M_StacksGlue.
 Open Scope string_scope.
 Open Scope Z_scope.
 
@@ -44,6 +44,24 @@ Definition of_stackset (ot : term) (R : stackset) : term :=
   TL [TZ (ss_total R); of_Q17 q; TS (ss_type R); TS u; TL (map of_stack (ss_stacks R));
       TL (map of_source (ss_sources R)); TZ 0].
 
+(* ---------------------------------------------------------------- end-to-end cases
+   input = ["e2e"; loaded profile; flags [si; legacy; mean; gran; noinlines; columns; trim];
+            url [si; mean; g; noinlines; showcolumns]; ratio = 1/divide_by; history (not used: the
+            model says it is irrelevant); shorten table; clean table; command line (information)] *)
+Definition is_e2e (i : term) : bool := match gn i 0 with TS s => String.eqb s "e2e" | _ => false end.
+
+Definition gflags_of (t : term) : gflags :=
+  {| gf_si := gs (gn t 0); gf_legacy := gss (gn t 1); gf_mean := gb (gn t 2); gf_gran := gs (gn t 3);
+     gf_noinlines := gb (gn t 4); gf_columns := gb (gn t 5); gf_trim := gs (gn t 6) |}.
+Definition gurl_of (t : term) : gurl :=
+  {| u_si := gs (gn t 0); u_mean := gs (gn t 1); u_gran := gs (gn t 2); u_noinlines := gs (gn t 3);
+     u_columns := gs (gn t 4) |}.
+
+Definition e2e_result (i : term) : web_result :=
+  flamegraph_request (gflags_of (gn i 2)) (gurl_of (gn i 3)) (profile_of (gn i 1)).
+
+Definition http400 : term := TL [TS "http"; TZ 400].
+
 Definition is_seq (i : term) : bool := match gn i 0 with TS s => String.eqb s "seq" | _ => false end.
 
 (* a single call:   input = [profile; opts; shorten table; clean table]
@@ -54,7 +72,15 @@ Definition seq_opts (i : term) : list term :=
   map (fun k => nth (Z.to_nat (gz k)) (gl (gn i 2)) (TL [])) (gl (gn i 3)).
 
 Definition run_C17 (i : term) : term :=
-  if is_seq i then
+  if is_e2e i then
+    match e2e_result i with
+    | WebBadRequest => http400
+    | WebOk o unit p =>
+        (* of_stackset reads the unit at position 3 and the ratio at position 5 of an options term *)
+        of_stackset (TL [TZ 0; TZ 0; TS ""; TS unit; TS ""; gn i 4])
+                    (stacks_of (lookup (table_of (gn i 6))) (lookup (table_of (gn i 7))) o p)
+    end
+  else if is_seq i then
     let ots := seq_opts i in
     let '(Rs, p') := stacks_calls (lookup (table_of (gn i 4))) (lookup (table_of (gn i 5)))
                                   (map opts_of ots) (profile_of (gn i 1)) in
@@ -112,7 +138,8 @@ Fixpoint eqv_list (ms os : list term) : bool :=
   end.
 
 Definition eqv_C17 (i m o : term) : bool :=
-  if is_seq i then eqv_list (gl (gn m 0)) (gl (gn o 0)) && term_eqb (gn m 1) (gn o 1)
+  if is_e2e i then (if term_eqb m http400 then term_eqb o http400 else eqv_one m o)
+  else if is_seq i then eqv_list (gl (gn m 0)) (gl (gn o 0)) && term_eqb (gn m 1) (gn o 1)
   else eqv_one m o.
 
 (* decode the implementation's observable; negative numbers where an index is expected are
@@ -146,8 +173,24 @@ Fixpoint all_some {A} (l : list (option A)) : option (list A) :=
   | None :: _ => None
   end.
 
+(* the values of the LOADED profile's samples under the selected index, checked without going
+   through the aggregation model *)
+Definition loaded_values_ok (ix : nat) (loaded : profile) (R : stackset) : bool :=
+  Nat.eqb (List.length (ss_stacks R)) (List.length (p_sample loaded))
+  && forallb (fun ks => sk_value (fst ks) =? nth ix (s_val (snd ks)) 0) (combine (ss_stacks R) (p_sample loaded)).
+
 Definition spec_C17 (i o : term) : bool :=
-  if is_seq i then
+  if is_e2e i then
+    match e2e_result i with
+    | WebBadRequest => term_eqb o http400     (* the rules reject the request: it must be refused *)
+    | WebOk op unit p =>
+        match stackset_of o with
+        | Some (nulls, R) => check_stackset op p nulls R && loaded_values_ok (o_index op) (profile_of (gn i 1)) R
+                             && String.eqb (ss_type R) (o_type op)
+        | None => false
+        end
+    end
+  else if is_seq i then
     (* every call of the sequence serves a correct stack set for the profile the reports were built
        on, and that profile is afterwards what it was before the first call *)
     match all_some (map stackset_of (gl (gn o 0))) with
